@@ -47,6 +47,10 @@ theorem holderInv_spuriousPoll {s s' : State} {a : Nat} (h : HolderInv s) (hs : 
       simp only [Option.some.injEq] at hs; subst hs
       refine HolderInv.keep h (hpc_goto (fun b q => rfl) hlt) (by simp) (by simp) ?_ (StatesOk.refl' _ _ (by simp))
       intro q; rw [hpca, hpc]; simp [Pc.holds]
+    · next u hpc =>
+      simp only [Option.some.injEq] at hs; subst hs
+      refine HolderInv.keep h (hpc_goto (fun b q => rfl) hlt) (by simp) (by simp) ?_ (StatesOk.refl' _ _ (by simp))
+      intro q; rw [hpca, hpc]; simp [Pc.holds]
     · simp at hs
   · simp at hs
 
@@ -114,11 +118,11 @@ theorem holderInv_setChild {s : State} (h : HolderInv s) (p : Nat) (c : Option N
     rw [pcAt_setAct_samepc _ p pv { pv with child := c } hpv rfl]
   · exact h
 
-theorem holderInv_addAct {s s0 : State} (h : HolderInv s) (t : Nat) (parent : Option Nat) (pc : Pc)
+theorem holderInv_addAct {s s0 : State} (h : HolderInv s) (t : Nat) (parent : Option Nat) (pc : Pc) (once : Bool)
     (hpc : ∀ q, pc.holds q = false) (hacts : s0.acts = s.acts) (hho : s0.holder = s.holder) (hqs : s0.qs = s.qs) :
-    HolderInv (addAct s0 t parent pc).1 := by
-  have h1 : HolderInv ({ s0 with acts := s0.acts ++ [({ thread := t, pc := pc, parent := parent, child := none, woken := false, result := none } : Act)], nextOp := s0.nextOp + 1 } : State) :=
-    holderInv_of_same h (holds_pcAt_append (n := { thread := t, pc := pc, parent := parent, child := none, woken := false, result := none }) (by simp [hacts]) hpc) hho hqs
+    HolderInv (addAct s0 t parent pc once).1 := by
+  have h1 : HolderInv ({ s0 with acts := s0.acts ++ [({ thread := t, pc := pc, parent := parent, child := none, woken := false, result := none, mode := .await, once := once } : Act)], nextOp := s0.nextOp + 1 } : State) :=
+    holderInv_of_same h (holds_pcAt_append (n := { thread := t, pc := pc, parent := parent, child := none, woken := false, result := none, mode := .await, once := once }) (by simp [hacts]) hpc) hho hqs
   unfold addAct
   cases parent with
   | none => exact h1
@@ -133,12 +137,13 @@ theorem holderInv_invoke {s s' : State} {t a : Nat} {parent : Option Nat} {c : C
     (hs : invoke s t parent c = some (s', a)) : HolderInv s' := by
   unfold invoke at hs
   cases c <;> simp only at hs
-  all_goals (try (split at hs <;> try (simp at hs; done)))
+  all_goals (repeat' split at hs)
+  all_goals (try (simp at hs; done))
   all_goals (
     have hs' := congrArg Prod.fst (Option.some.inj hs)
     simp only at hs'
     subst hs'
-    refine holderInv_addAct h t parent _ (by intro q; simp [Pc.holds]) ?_ ?_ ?_ <;>
+    refine holderInv_addAct h t parent _ _ (by intro q; simp [Pc.holds]) ?_ ?_ ?_ <;>
       (first | rfl | (split <;> (try split) <;> rfl)))
 
 end Desync
